@@ -9,7 +9,14 @@ pub struct Reader<'a> {
 }
 
 impl<'a> Reader<'a> {
+    #[cfg(not(feature = "verif_small_buf"))]
     const BUF_SIZE: usize = 1 << 16;
+    /// verification hook: tiny buffer so that refills are exercised exhaustively
+    #[cfg(feature = "verif_small_buf")]
+    const BUF_SIZE: usize = 4;
+    /// verification hook: the internal buffer size
+    #[cfg(feature = "verif")]
+    pub const VERIF_BUF_SIZE: usize = Reader::BUF_SIZE;
 
     pub fn new(stdin: Box<dyn Read + 'a>) -> Self {
         Self {
